@@ -1693,8 +1693,9 @@ class LegPipe(LegCharge):
     def outer_conj(self):
         """Like :meth:`conj`, but don't change ``qconj`` for incoming legs."""
         res = self.copy()  # shallow
-        res.qconj = -1
+        res.qconj = -self.qconj
         res._set_charges(self.chinfo.make_valid(-self.charges))
+        res.sorted = False
         return res
 
     def sort(self, *args, **kwargs):
